@@ -14,6 +14,7 @@ import (
 	"encoding/json"
 	"fmt"
 	"math/rand"
+	"runtime/debug"
 	"sort"
 	"strings"
 
@@ -122,6 +123,31 @@ func mkSteps(nVerbs int) func(rng *rand.Rand, b *built) []step {
 
 const cycle = timing.VTimeInPicoSec(1000)
 
+// runSlice advances the simulation; a panic raised by the code under test is
+// reported under an agent-specific key (with the events that led to it).
+func runSlice(c *kit.Case, rg *rig, sa string, desc any, t timing.VTimeInPicoSec) (ok bool) {
+	defer func() {
+		if e := recover(); e != nil {
+			st := string(debug.Stack())
+			if !kit.PanicInAkita(st) {
+				panic(e)
+			}
+			lines := strings.Split(st, "\n")
+			if len(lines) > 40 {
+				lines = lines[:40]
+			}
+			c.Fail(sa+":panic:"+kit.NormalizeMsg(fmt.Sprint(e)), map[string]any{"panic": fmt.Sprint(e), "stack": strings.Join(lines, "\n"),
+				"events_before": append([]string(nil), rg.mon.trail...), "desc": desc})
+			ok = false
+		}
+	}()
+	if err := rg.engine.RunUntil(t); err != nil {
+		c.Failf(sa+":engine-error", "%v", err)
+		return false
+	}
+	return true
+}
+
 func run(b kit.Batch, r *kit.R) {
 	var p params
 	b.P(&p)
@@ -141,9 +167,8 @@ func run(b kit.Batch, r *kit.R) {
 		quietSince := timing.VTimeInPicoSec(0)
 		for {
 			t += 500 * cycle
-			if err := rg.engine.RunUntil(t); err != nil {
-				c.Failf(sa+":engine-error", "%v", err)
-				break
+			if !runSlice(c, rg, sa, desc, t) {
+				return
 			}
 			if !rg.ctl.done {
 				continue
@@ -168,7 +193,7 @@ func run(b kit.Batch, r *kit.R) {
 		mon.finish(rg.ctl.acks, rg.ctl.timedOut)
 
 		for _, v := range mon.viols {
-			c.Fail(sa+":"+v.key, map[string]any{"msg": v.msg, "last_events": mon.trail, "desc": desc})
+			c.Fail(sa+":"+v.key, map[string]any{"msg": v.msg, "events_before": v.trail, "desc": desc})
 		}
 		for name, v := range mon.counters {
 			r.Count(name, v)
